@@ -535,7 +535,7 @@ impl<P: HProblem> Obs<P> {
                             d.violate("C18", "pso-velocity-not-clamped", format!("particle {p} dim {i}: velocity {v_new} outside [-{vmax}, {vmax}]"));
                         }
                         let moved = xs[p][i] + v_new;
-                        if x_after[i].to_bits() != moved.to_bits() {
+                        if !rel_close(x_after[i], moved, 1e-12) {
                             d.violate("C18", "pso-position-not-moved-by-velocity", format!("particle {p} dim {i}: position {} -> {}, new velocity {v_new} (expected position {moved})", xs[p][i], x_after[i]));
                         }
                         let base = w * vs[p][i];
@@ -547,7 +547,7 @@ impl<P: HProblem> Obs<P> {
                         let (lo, hi) = ((lo - slack).clamp(-vmax, vmax), (hi + slack).clamp(-vmax, vmax));
                         if c1 == 0.0 && c2 == 0.0 {
                             let exact = base.clamp(-vmax, vmax);
-                            if v_new.to_bits() != exact.to_bits() && base.is_finite() {
+                            if !rel_close(v_new, exact, 1e-12) && base.is_finite() {
                                 d.violate("C18", "pso-stored-inertia-weight-not-used", format!("particle {p} dim {i}: with c1 = c2 = 0 the new velocity must be clamp(w * v) = {exact} for the stored weight {w} and old velocity {}, got {v_new}", vs[p][i]));
                             }
                             d.probe("velocity update decided by the stored weight alone");
@@ -694,7 +694,7 @@ impl<P: HProblem> Obs<P> {
                 let (s, e) = (self.case.p("start_weight"), self.case.p("end_weight"));
                 if let (Ok(w), Ok(pr)) = (state.try_get_value::<InertiaWeight<ParticleVelocitiesUpdate<Global>>>(), state.try_get_value::<Progress<ValueOf<Iterations>>>()) {
                     let exp = (e - s) * pr + s;
-                    if w.to_bits() != exp.to_bits() {
+                    if !rel_close(w, exp, 1e-12) {
                         d.violate("C18", "pso-inertia-weight-interpolation", format!("inertia weight is {w}; linear interpolation {s} -> {e} at progress {pr} gives {exp}"));
                     }
                     d.probe("inertia weight update checked");
